@@ -179,6 +179,9 @@ func CompareTypeInfo(a, b atree.TypeInfo) bool {
 type MV interface{ mv() }
 
 type Scalar struct{ N uint64 } // testutils.Uint64Value(N)
+type U8 struct{ N uint8 }      // testutils.Uint8Value(N)
+
+func (U8) mv() {}
 type Str struct{ S string }    // testutils.StringValue
 type Some struct{ In MV }      // testutils.SomeValue
 
@@ -234,6 +237,8 @@ func MVString(v MV) string {
 		return "nil"
 	case Scalar:
 		return fmt.Sprintf("%d", v.N)
+	case U8:
+		return fmt.Sprintf("b%d", v.N)
 	case Str:
 		if len(v.S) > 12 {
 			return fmt.Sprintf("%q…(%d)", v.S[:8], len(v.S))
@@ -305,6 +310,8 @@ func ToAtree(v MV) atree.Value {
 	switch v := v.(type) {
 	case Scalar:
 		return tu.Uint64Value(v.N)
+	case U8:
+		return tu.Uint8Value(v.N)
 	case Str:
 		return tu.NewStringValue(v.S)
 	case Some:
@@ -395,6 +402,8 @@ func ClassOf(v MV) string {
 	switch v := v.(type) {
 	case Scalar:
 		return fmt.Sprintf("n%d", ScalarSize(v.N))
+	case U8:
+		return fmt.Sprintf("b%d", ScalarSize(uint64(v.N)))
 	case Str:
 		return fmt.Sprintf("s%d", StrSize(v.S))
 	case Some:
